@@ -16,6 +16,7 @@ package dataplane
 
 import (
 	"encoding/binary"
+	"sync"
 	"time"
 )
 
@@ -193,7 +194,25 @@ func (e *encoder) copyToFrame() int {
 	return toCopy
 }
 
-// NewStreamID generates a new random stream ID.
+// streamIDs hands out the stream IDs of this process: a counter that starts at a
+// clock-derived value. Two senders of one session must never share a stream ID, because the
+// remote gateway puts frames with the same (session, stream) pair into one reassembly queue and
+// would mix the frames of the two senders.
+var streamIDs struct {
+	sync.Mutex
+	started bool
+	last    uint32
+}
+
+// NewStreamID generates a new stream ID. IDs are unique among the last 2^20 streams of the
+// process.
 func NewStreamID() uint32 {
-	return uint32(time.Now().UnixNano() & 0xffff)
+	streamIDs.Lock()
+	defer streamIDs.Unlock()
+	if !streamIDs.started {
+		streamIDs.last = uint32(time.Now().UnixNano())
+		streamIDs.started = true
+	}
+	streamIDs.last++
+	return streamIDs.last & 0xfffff
 }
